@@ -137,6 +137,162 @@ def _native_adjoint(spec):
         return True, f"raises {type(e).__name__}: {str(e)[:80]} (allowed)", "-"
 
 
+def load_scipy_special():
+    """autograd/scipy/special.py shadow-loaded: `scipy.special.<f>` is an abstract element-wise function of all its arguments (NumPy broadcasting; SciPy's
+    special functions are ufuncs), `logsumexp` a reduction with axis / keepdims / b."""
+    if "sps" in _cache:
+        return _cache["sps"]
+    import types
+    rv0, rj0, anp, _ = load()
+    rv, rj = shadow.Recorder(), shadow.Recorder()
+
+    def elementwise(*args, **kw):
+        return sx.SArr(sx.bshape(*[sx.shape_of(a) for a in args]), "real")
+
+    def a_logsumexp(x, axis=None, b=None, keepdims=False, return_sign=False):
+        sh = sx.shape_of(x)
+        if b is not None:
+            sh = sx.bshape(sh, sx.shape_of(b))
+        return sx.SArr(sx.reduce_shape(sh, axis, keepdims), "real")
+
+    class Special:
+        def __getattr__(self, nm):
+            if nm.startswith("__"):
+                raise AttributeError(nm)
+            p_ = shadow.Prim(nm, a_logsumexp if nm == "logsumexp" else elementwise)
+            setattr(self, nm, p_)
+            return p_
+    sp_mod = types.SimpleNamespace(special=Special())
+    ns_v = _cache["ns_v"]
+    ns, dropped = shadow.load("autograd/scipy/special.py", dict(sps=sp_mod, sp=sp_mod, scipy=sp_mod, anp=anp, defvjp=rv.defvjp, defjvp=rj.defjvp, primitive=rv.primitive,
+                                                               repeat_to_match_shape=ns_v["repeat_to_match_shape"], unbroadcast_f=ns_v["unbroadcast_f"]))
+    _cache["sps"] = (rv, rj, anp, ns, dropped)
+    return _cache["sps"]
+
+
+def run_scipy_special(rep, tier):
+    """E3 for autograd/scipy/special.py: every registered reverse rule returns an array of the differentiated argument's shape for ALL sizes when the arguments
+    broadcast against each other (array order with scalar point, column against row, ...); logsumexp over axis / tuple axis / keepdims / weights b, both modes."""
+    import inspect
+    try:
+        rv, rj, anp, ns, dropped = load_scipy_special()
+    except CheckerError as e:
+        rep.obligation("E3:scipy.special:load", False, "-", 0, "E3")
+        rep.violation("E3:scipy.special:load", "autograd/scipy/special.py", f"the module no longer loads on the abstract namespace: {e}", witness=False, solver_output=str(e))
+        return
+    rep.function("autograd/scipy/special.py (module-level defvjp / defjvp rules)", __import__("os").path.join(__import__("vlib.common", fromlist=["REPO"]).REPO, "autograd/scipy/special.py"))
+    rep.assume("scipy.special functions are element-wise in ALL their arguments with NumPy broadcasting (they are ufuncs); logsumexp reduces like sum; values are not modelled")
+    A = lambda *d: ("A", d, "real")
+    bc = [((), ()), (("n",), ("n",)), (("n",), ()), ((), ("n",)), (("n", "m"), ("m",)), (("m",), ("n", "m")), (("n", 1), (1, "m")), (("n", "m"), ("n", "m"))]
+    cases = []
+    for (name, a), mk in sorted(rv.vjps.items(), key=lambda kv: (kv[0][0], kv[0][1])):
+        if mk is None or name == "logsumexp":
+            continue
+        try:
+            params = [p_ for p_ in inspect.signature(mk).parameters.values() if p_.kind in (p_.POSITIONAL_ONLY, p_.POSITIONAL_OR_KEYWORD)]
+        except (TypeError, ValueError):
+            continue
+        nargs = len(params) - 1        # (ans, *args)
+        if nargs == 1:
+            for shp in ((), ("n",), ("n", "m")):
+                cases.append((f"{name}{shp}", name, [A(*shp)], {}, a))
+        else:
+            for s0, s1 in bc:
+                shapes = [s1 if i == a else s0 for i in range(nargs)]      # the differentiated argument against all the others
+                cases.append((f"{name}{tuple(shapes)}", name, [A(*sh) for sh in shapes], {}, a))
+    for shp, axes in ((("a",), (None, 0, -1)), (("a", "b"), (None, 0, 1, -1, (0, 1), (-1, -2))), (("a", "b", "c"), (1, -2, (0, 2), (-1, 0), (-2, -1), (-3, -1)))):
+        for ax in axes:
+            for kd in (False, True):
+                cases.append((f"logsumexp{shp} axis={ax} keepdims={kd}", "logsumexp", [A(*shp)], dict(axis=ax, keepdims=kd), 0))
+    cases.append(("logsumexp('a','b') b=('b',) axis=1", "logsumexp", [A("a", "b")], dict(axis=1, b=("B", ("b",))), 0))
+    cases.append(("logsumexp('a','b') b=('a','b') axis=(0,1)", "logsumexp", [A("a", "b")], dict(axis=(0, 1), b=("B", ("a", "b"))), 0))
+    rep.bound(f"E3 scipy.special: {len(cases)} call forms (every registered reverse rule x broadcasting patterns of its arguments; logsumexp axis / keepdims / b forms, both modes) enumerated; sizes symbolic")
+    npaths = 0
+    for label, name, spec, kwargs, a in cases:
+        for mode in ("vjp", "jvp"):
+            if mode == "jvp" and not callable(rj.jvps.get((name, a))):
+                continue
+            case = f"{label}|arg{a}|{mode}"
+
+            def harness(L, name=name, spec=spec, kwargs=kwargs, a=a, mode=mode):
+                _state["oblig"] = []
+                syms = {}
+                args = _sym_args(L, spec, syms)
+                kw = {k: (_sym_args(L, [("A", v[1], "real")], syms)[0] if isinstance(v, tuple) and v and v[0] == "B" else v) for k, v in kwargs.items()}
+                prim = rv.helpers.get(name)
+                if prim is None:
+                    return None
+                ans = prim(*args, **kw)
+                _state["oblig"] = []
+                tgt = args[a]
+                if mode == "vjp":
+                    res = rv.vjps[(name, a)](ans, *args, **kw)(sx.SArr(sx.shape_of(ans), "real"))
+                    want = (sx.shape_of(tgt), sx.kind_of(tgt))
+                else:
+                    res = rj.jvps[(name, a)](sx.SArr(sx.shape_of(tgt), "real"), ans, *args, **kw)
+                    want = (sx.shape_of(ans), sx.kind_of(ans))
+                if not isinstance(res, sx.SArr):
+                    return None
+                return (sx.shape_of(res), sx.kind_of(res)), list(_state["oblig"]), want
+            try:
+                results, _ = cx.explore(harness)
+            except (shadow.NotModelled, CheckerError) as e:
+                rep.uncover(f"E3 scipy.special: {case}: {e}"[:160])
+                continue
+            for r in results:
+                if r.exc is None and r.value is None:
+                    continue
+                npaths += 1
+                if r.exc is None:
+                    res, obl, want = r.value
+                    r.value = (res, obl)
+                else:
+                    res, want = None, (None, None)
+                    if isinstance(r.exc, (shadow.NotModelled, NotImplementedError)):
+                        rep.uncover(f"E3 scipy.special: {case}: {type(r.exc).__name__}: {str(r.exc)[:60]}")
+                        continue
+                _check_leaf(rep, tier, f"{mode}:scipy.special.{name}:{case}", r, res, want[0], want[1], case,
+                            dict(module="contracts.rules_shape", family="scipy_special", label=label, name=name, spec=[list(map(lambda d: d, it[1])) for it in spec], kwargs={k: (list(v) if isinstance(v, tuple) else v) for k, v in kwargs.items()}, argnum=a, mode=mode))
+    rep.extra["e3_scipy_special_paths"] = npaths
+
+
+def _native_scipy_special(spec):
+    import numpy as onp
+
+    import autograd.numpy as anp
+    import autograd.scipy.special as asp
+    from autograd.core import make_jvp, make_vjp
+    sizes = spec.get("sizes", {})
+    dim = lambda d: d if isinstance(d, int) else max(1, int(sizes.get(d, 2)))
+    args = []
+    for j, shp in enumerate(spec["spec"]):
+        shp = tuple(dim(d) for d in shp)
+        n = int(onp.prod(shp)) if shp else 1
+        arr = (onp.arange(n, dtype=float) * 0.13 + 0.6 + 0.2 * j).reshape(shp)
+        args.append(arr if shp else float(arr))
+    kw = {}
+    for k, v in spec.get("kwargs", {}).items():
+        if isinstance(v, list) and v and v[0] == "B":
+            shp = tuple(dim(d) for d in v[1])
+            kw[k] = onp.arange(1.0, 1 + int(onp.prod(shp))).reshape(shp) * 0.5
+        else:
+            kw[k] = tuple(v) if isinstance(v, list) else v
+    a = spec["argnum"]
+    name = spec["name"]
+    if name in ("polygamma", "jn", "yn") and len(args) == 2:
+        args[0] = onp.round(onp.asarray(args[0])).astype(int) if onp.ndim(args[0]) else int(round(args[0]))
+    f = lambda z: getattr(asp, name)(*[z if i == a else v for i, v in enumerate(args)], **kw)
+    try:
+        if spec["mode"] == "vjp":
+            vjp, val = make_vjp(f, args[a])
+            r = onp.asarray(vjp(onp.ones(onp.shape(val))))
+            return r.shape == onp.shape(args[a]), f"gradient shape {r.shape} for an argument of shape {onp.shape(args[a])}", "the argument's shape"
+        val, t = make_jvp(f, args[a])(onp.ones(onp.shape(args[a])) if onp.ndim(args[a]) else 1.0)
+        return onp.shape(t) == onp.shape(val), f"tangent shape {onp.shape(t)} for output shape {onp.shape(val)}", "the output's shape"
+    except Exception as e:
+        return True, f"raises {type(e).__name__}: {str(e)[:80]} (allowed)", "-"
+
+
 FFT_NAMES = ("fft", "ifft", "fft2", "ifft2", "fftn", "ifftn", "rfft", "irfft", "rfft2", "irfft2", "rfftn", "irfftn", "fftshift", "ifftshift", "fftfreq", "rfftfreq", "hfft", "ihfft")
 
 
@@ -1016,6 +1172,8 @@ def replay(spec):
         return _native_adjoint(spec)
     if spec.get("family") == "fft":
         return _native_fft(spec)
+    if spec.get("family") == "scipy_special":
+        return _native_scipy_special(spec)
     sizes = spec.get("sizes", {})
 
     def arr(tag, rank, kind):
